@@ -476,6 +476,7 @@ func (chain *Chain) cosiSendAnnouncement(m *CosiAction) error {
 	}
 	agg.Commitments[cd.CN.ConsensusIndex] = &R
 	chain.CosiAggregators[s.Hash] = agg
+	verifCosiAnnounced(chain, s, cd)
 	nodes := chain.cosiAcceptedNodesListShuffle(s.RoundNumber, s.Timestamp)
 	for _, cn := range nodes {
 		peerId := cn.IdForNetwork
@@ -521,6 +522,7 @@ func (chain *Chain) cosiHandleAnnouncement(m *CosiAction) error {
 	for _, txh := range s.Transactions {
 		chain.CosiVerifiers[txh] = v
 	}
+	verifCosiAcked(chain, m)
 	err = chain.node.Peer.SendSnapshotCommitmentMessage(s.NodeId, s, nonce.Public(), cd.WantTxs)
 	if err != nil {
 		logger.Verbosef("cosiHandleAnnouncement SendSnapshotCommitmentMessage(%s, %s) ERROR %v\n",
@@ -554,6 +556,7 @@ func (chain *Chain) cosiHandleCommitment(m *CosiAction) error {
 	ann.Commitments[cd.PN.ConsensusIndex] = m.Commitment
 	ann.WantTxs[m.PeerId] = m.WantTxs
 	ann.FullChallenges[m.PeerId] = m.Action == CosiActionSelfFullCommitment
+	verifCosiCommitted(chain, m, ann)
 	logger.Verbosef("cosiHandleCommitment %v NOW %d %d\nn", m, len(ann.Commitments), base)
 	if len(ann.Commitments) < base {
 		return nil
@@ -576,6 +579,7 @@ func (chain *Chain) cosiHandleCommitment(m *CosiAction) error {
 	}
 	ann.Responses[cd.CN.ConsensusIndex] = response
 	copy(cosi.Signature[32:], response[:])
+	verifCosiChallenged(chain, ann, cosi)
 
 	nodes := chain.cosiAcceptedNodesListShuffle(s.RoundNumber, s.Timestamp)
 	for _, cn := range nodes {
@@ -628,6 +632,7 @@ func (chain *Chain) cosiHandleFullChallenge(m *CosiAction) error {
 	for _, txh := range s.Transactions {
 		chain.CosiVerifiers[txh] = v
 	}
+	verifCosiFullChallenged(chain, m)
 
 	ccm := &CosiAction{
 		PeerId:       m.PeerId,
@@ -741,6 +746,7 @@ func (chain *Chain) cosiHandleChallenge(m *CosiAction) error {
 		chain.abandonCosiSnapshot(s)
 		return nil
 	}
+	verifCosiResponded(chain, m, s, response)
 	err = chain.node.Peer.SendSnapshotResponseMessage(m.PeerId, m.SnapshotHash, response)
 	if err != nil {
 		logger.Verbosef("cosiHandleChallenge SendSnapshotResponseMessage(%s, %s) ERROR %v\n",
@@ -771,6 +777,7 @@ func (chain *Chain) cosiHandleResponse(m *CosiAction) error {
 
 	base := chain.node.ConsensusThreshold(s.Timestamp, false)
 	agg.Responses[cd.PN.ConsensusIndex] = m.Response
+	verifCosiResponseAccepted(chain, m, agg)
 	logger.Verbosef("cosiHandleResponse %v NOW %d %d %d\n",
 		m, len(agg.Responses), len(agg.Commitments), base)
 	if len(agg.Responses) != len(agg.Commitments) {
@@ -791,6 +798,7 @@ func (chain *Chain) cosiHandleResponse(m *CosiAction) error {
 		return nil
 	}
 	logger.Verbosef("node.cacheVerifyCosi(%s, %s) FINAL\n", chain.node.Peer.Address, m.SnapshotHash)
+	verifCosiFinalized(chain, s, signers)
 
 	if chain.IsPledging() && s.RoundNumber == 0 && checkNodeAccept(cd.FoundTxs) {
 		err := chain.node.finalizeNodeAcceptSnapshot(s, signers)
@@ -858,6 +866,7 @@ func (chain *Chain) abandonCosiSnapshot(s *common.Snapshot) {
 			delete(chain.CosiVerifiers, tx)
 		}
 	}
+	verifCosiAbandoned(chain, s)
 }
 
 // retryCosiSnapshot is for terminal failures of a locally aggregated proposal.
@@ -912,6 +921,7 @@ func (chain *Chain) resetCosiStateForNewRound(owned []crypto.Hash) {
 	chain.CosiAggregators = make(map[crypto.Hash]*CosiAggregator)
 	chain.CosiVerifiers = make(map[crypto.Hash]*CosiVerifier)
 	chain.node.requeueTransactions(retry)
+	verifCosiRoundReset(chain)
 }
 
 // expireCosiAggregators retries transactions from local snapshot proposals that
@@ -1000,6 +1010,7 @@ func (chain *Chain) cosiHandleFinalization(m *CosiAction) error {
 		return nil
 	}
 
+	verifCosiFinalizationAccepted(chain, m, signers)
 	found, missing, err := chain.node.validateSnapshotTransaction(s, true)
 	if err != nil {
 		logger.Verbosef("ERROR handleFinalization validateSnapshotTransaction %s %s %d %v\n",
